@@ -28,6 +28,10 @@ Sensitivity (quick tier, seed 1, scratch copy of /repo/tornado; all caught):
   M6 utf8(): non-str values are str()-ed instead of raising TypeError                 -> C21.utf8_rejects_other_types
   M7 recursive_unicode: tuple branch removed                                          -> C21.recursive_unicode
   M8 url_escape: always quote_plus (plus ignored)                                     -> C21.url_escaped_alphabet
+  M9 url_escape NFC-normalises str input before quoting (found by independent mutation testing; previously caught
+     at one seed only)                          caught at every seed by the finite "forms" part (23 non-normalised
+     strings x 5 contexts x 8 helpers) -> C21.url_roundtrip_text on "e\\u0301"; siblings NFD / NFKC / NFKD in
+     url_escape, and NFC in xhtml_escape, json_encode, utf8 and to_unicode: all caught by the same part.
   Equivalent (not caught, cannot be): url_unescape text branch always using unquote_plus -- url_escape never
   emits a raw '+' when plus=False, so the round-trip law the statement gives cannot tell the two apart.
 """
@@ -39,6 +43,7 @@ from vlib.runner import HarnessError, Violation
 PROPERTY = "C21"
 READY = True
 RULE = (
+    "finite part forms (a pool of 23 strings that are not in NFC/NFD/NFKC/NFKD x 5 contexts through every text helper) + "
     "five Hypothesis parts (html, url, json, utf8, query); texts are concatenations of <=25 fragments "
     "(single special characters & < > \" ' ; # / + % space controls astral, entity look-alikes such as "
     "&amp / &#x27 / &#xD800; / </script>, arbitrary non-surrogate Unicode, unreserved runs), <=200 chars; "
@@ -69,11 +74,42 @@ LOOKALIKE = [
     "&#x110000;", "&notit;", "&#", "&#x", "&;", "&&", "</", "</script>", "<!--", "]]>", "%zz", "%2", "%",
     "%41", "%2B", "%2b", "%20", "%C3%A9", "%ff", "+", "++", " ", "a b", "/a/b", "\\u003c", "\\/", "\\",
 ]
+# Strings that are NOT in one or more Unicode normal forms: a helper that normalises its input (NFC/NFD/NFKC/NFKD)
+# silently breaks every round-trip law.  Deterministic pool, also run as a finite enumeration (part "forms").
+NON_NORMALIZED = [
+    "e\u0301",                # base letter + combining acute (NFC composes)
+    "\u00e9",                 # precomposed (NFD decomposes)
+    "a\u0307\u0323",          # combining marks in non-canonical order (all forms reorder)
+    "\u017f\u0307\u0323",     # long s + dot above + dot below: differs from all four of its normal forms
+    "\u1e9b\u0323",           # UAX #15 example: NFC != NFD != NFKC != NFKD
+    "\u212b", "\u2126",       # singletons ANGSTROM SIGN, OHM SIGN
+    "\uf900", "\ufa10",       # CJK compatibility ideographs
+    "\u1100\u1161", "\u1100\u1161\u11a8", "\uac01",   # conjoining Hangul jamo / precomposed syllable
+    "\u0958", "\U0001d15e",   # composition exclusions: NFC *de*composes them
+    "\ufb01", "\uff21\uff42", "\u00b5", "\u2460", "\u01c4", "\u00bd", "\u3000",   # NFKC/NFKD-only differences
+    "\u0344", "\u0130",
+]
+
+
+def _normal_forms_self_test():
+    import unicodedata
+    for form in ("NFC", "NFD", "NFKC", "NFKD"):
+        assert sum(unicodedata.normalize(form, x) != x for x in NON_NORMALIZED) >= 5, form
+    x = "\u017f\u0307\u0323"
+    assert len({x} | {unicodedata.normalize(f, x) for f in ("NFC", "NFD", "NFKC", "NFKD")}) == 5
+    # differences that only NFC (not NFD) and only NFKC/NFKD (not NFC/NFD) would introduce are present
+    assert any(unicodedata.normalize("NFC", x) != x and unicodedata.normalize("NFD", x) == x for x in NON_NORMALIZED)
+    assert any(unicodedata.normalize("NFKC", x) != x and unicodedata.normalize("NFC", x) == x
+               and unicodedata.normalize("NFD", x) == x for x in NON_NORMALIZED)
+
+
+_normal_forms_self_test()
 any_char = st.characters(exclude_categories=("Cs",))
 fragment = st.one_of(
     st.sampled_from(list("&<>\"'")),
     st.sampled_from(SPECIAL),
     st.sampled_from(LOOKALIKE),
+    st.sampled_from(NON_NORMALIZED),
     st.text(any_char, max_size=6),
     st.text("abcXYZ019-_.~", max_size=5),
 )
@@ -572,13 +608,51 @@ def run_query(ctx, case):
 
 query_s = st.lists(pair_s, min_size=1, max_size=6)
 
-PARTS = {"html": run_html, "url": run_url, "json": run_json, "utf8": run_utf8, "query": run_query}
+# ------------------------------------------------------------------------------- normal-form sweep
+FORMS_CONTEXTS = ["%s", "a%sb", "&%s<", " %s/+%%", "\"%s'</"]
+
+
+def forms_cases():
+    for x in NON_NORMALIZED:
+        for ctxt in FORMS_CONTEXTS:
+            text = ctxt % x
+            for helper in ("html", "url_plus", "url_noplus", "json", "json_key", "utf8", "utf8_tree", "query"):
+                yield (helper, text)
+
+
+def run_forms(ctx, case):
+    """Every text round-trip law on one string of the non-normalised pool (finite, same at every seed)."""
+    helper, text = case
+    ctx.label("not_normalized_input")
+    if helper == "html":
+        return run_html(ctx, ("text", text))
+    if helper == "url_plus":
+        return run_url(ctx, ("text", text, True))
+    if helper == "url_noplus":
+        return run_url(ctx, ("text", text, False))
+    if helper == "json":
+        return run_json(ctx, [text, {"k": text}])
+    if helper == "json_key":
+        return run_json(ctx, {text: 1})
+    if helper == "utf8":
+        return run_utf8(ctx, ("text", text))
+    if helper == "utf8_tree":
+        return run_utf8(ctx, ("tree", ("dict", [(("b", text), ("list", [("b", text), ("s", text)]))])))
+    if helper == "query":
+        raw = text.encode("utf-8")
+        units = [(b, "raw" if b >= 0x80 else "pct") for b in raw]
+        return run_query(ctx, [(units, [(b, "pct") for b in raw], True)])
+    raise AssertionError(helper)
+
+
+PARTS = {"forms": run_forms, "html": run_html, "url": run_url, "json": run_json, "utf8": run_utf8, "query": run_query}
 
 
 def main(ctx):
     ctx.run_replays(PARTS)
-    ctx.explore(html_s, run_html, ctx.n(1200, 60000), name="html")
-    ctx.explore(url_s, run_url, ctx.n(1200, 60000), name="url")
-    ctx.explore(json_value, run_json, ctx.n(1200, 60000), name="json")
-    ctx.explore(utf8_s, run_utf8, ctx.n(1200, 60000), name="utf8")
-    ctx.explore(query_s, run_query, ctx.n(1200, 60000), name="query")
+    ctx.enumerate(forms_cases(), run_forms, name="forms")
+    ctx.explore(html_s, run_html, ctx.n(800, 60000), name="html")
+    ctx.explore(url_s, run_url, ctx.n(800, 60000), name="url")
+    ctx.explore(json_value, run_json, ctx.n(800, 60000), name="json")
+    ctx.explore(utf8_s, run_utf8, ctx.n(800, 60000), name="utf8")
+    ctx.explore(query_s, run_query, ctx.n(800, 60000), name="query")
